@@ -36,7 +36,6 @@ import (
 	"reflect"
 	"runtime"
 	"sync"
-	"time"
 
 	ethtypes "github.com/ethereum/go-ethereum/core/types"
 	ethcrypto "github.com/ethereum/go-ethereum/crypto"
@@ -1243,9 +1242,7 @@ func main() {
 	vf.Parallel(nsig, workers, func(i int) { sigCountCase(rng.Sub(1<<40 + uint64(i))) })
 
 	// histories of steps on live transaction objects (history.go)
-	t0 := time.Now()
 	runHistories(rng.Sub(6<<40), workers)
-	println("HISTSEC", time.Since(t0).String())
 
 	// random / structured strings
 	var pool [][]byte
